@@ -28,7 +28,11 @@ Known mechanisms: a body is clean or carries exactly one risky construct and is 
 its control twin (same body, benign form).  Risky families (vlib/gen/htmlgrammar.py RISKY): bare void
 child / bare <embed> / stray end tag / unclosed start tag inside a removed element, the latter two
 also with the tag of ANOTHER removable element (</iframe> inside noscript, <object> left open inside
-iframe), and a document that ends inside an unterminated comment / declaration / PI (twin: terminated).  Key = C17:<carrier>:<risky feature|clean>:<symptom>.
+iframe), a document that ends inside an unterminated comment / declaration / PI (twin: terminated), and an
+orphan end tag of a removable element between removed elements (twin: an empty element).  The visible
+fillers include complete comments AROUND and BETWEEN visible markup (downlevel-revealed conditional
+comment pairs, a comment opening like a conditional one and closed by a plain -->): each comment is a
+construct of its own, deleted in the reference, the markup between them is ordinary visible text.  Key = C17:<carrier>:<risky feature|clean>:<symptom>.
 """
 from __future__ import annotations
 
@@ -363,7 +367,7 @@ def main(run) -> None:
         G.systematic_clean(rng),
         G.systematic_epub_only(rng),
         G.systematic_risky(rng),
-        G.random_clean(rng, run.n(1100, 30000)),
+        G.random_clean(rng, run.n(1000, 30000)),
         G.random_risky(rng, run.n(250, 8000)),
     ))
     for b in bodies:        # generator self-check: twin shares the ground truth, tokens are really in the document
@@ -398,7 +402,8 @@ def main(run) -> None:
     need = [f"pos:{p}" for p in G.POSITIONS] + [f"attr:{a}" for a in G.ATTR_KINDS] + [f"case:{k}" for k in G.CASE_KINDS] + \
            [f"close:{k}" for k in G.CLOSE_KINDS] + [f"c:raw:{k}" for k in G.RAW_KINDS] + [f"c:normal:{k}" for k in G.NORMAL_KINDS] + \
            [f"c:comment:{k}" for k in G.COMMENT_KINDS] + [f"c:embed:{k}" for k in G.EMBED_KINDS] + ["c:normal:selfclosed-removable"] + \
-           [f"tail:{k}" for k in G.TAIL_KINDS] + [f"trunc:{k}" for k in G.TRUNC_KINDS]
+           [f"tail:{k}" for k in G.TAIL_KINDS] + [f"trunc:{k}" for k in G.TRUNC_KINDS] + list(G.FILLER_FEATURES) + \
+           ["c:normal:orphan-endtag", "c:raw:orphan-endtag"]
     missing = [f for f in need if run.extras["features"].get(f, 0) < 4]
     run.require("grammar_features_covered", len(need) - len(missing), len(need))
     if missing:
